@@ -51,7 +51,7 @@ class ConstraintWiring(E2Contract):
                       "fista": ("projected_fast_iterative_shrinkage_thresholding_algorithm", "ProjectedFastIterativeShrinkageThresholdingAlgorithm")}[algo]
         mod = W.mod(PGD + modn)
         alg = getattr(mod, clsn)()
-        opt = getattr(mod, clsn + "Option")(on_algo_eq_constraint=eqf, on_algo_ineq_constraint=ineqf, max_iteration_proj_physical=2, mode_proj_order=order)
+        opt = getattr(mod, clsn + "Option")(on_algo_eq_constraint=eqf, on_algo_ineq_constraint=ineqf, max_iteration_proj_physical=2, max_iteration_optimization=3, mode_proj_order=order)
         alg.set_constraint_from_standard_qt_and_option(qt, opt)
         tmpl = qt.generate_empty_estimation_obj_with_setting_info()
         var = inp["var"]
@@ -104,6 +104,17 @@ def phys_stub():
     return stub
 
 
+def _wiring_canary(self, W, cfg, inp, out):
+    kind, on_para, eqf, ineqf, algo, order = cfg
+    if not (eqf or ineqf) or (on_para and eqf and not ineqf):
+        # identity map (flags off, or the equality constraint already solved by the parametrisation)
+        return [eq("canary", out["got"], 2 * inp["var"], "(false) the installed map doubles its argument")]
+    return [eq("canary", out["got"], inp["var"], "(false) the installed projection leaves every point where it is")]
+
+
+ConstraintWiring.canary = _wiring_canary
+
+
 class ProjectedLinear(E2Contract):
     """projected linear estimate == to_var(calc_proj_physical(linear estimate)) with the estimator's projection order"""
     name = "ProjectedLinearEstimator"
@@ -148,12 +159,15 @@ class ProjectedLinear(E2Contract):
         obj = lr.estimated_qoperation
         obj.set_mode_proj_order(order)
         want = obj.calc_proj_physical().to_var()
-        return dict(got=r.estimated_var, want=want, n=len(r.estimated_var_sequence))
+        return dict(got=r.estimated_var, want=want, n=len(r.estimated_var_sequence), lin=lr.estimated_var)
 
     def post(self, W, cfg, inp, out):
         return [eq("projected-linear==projection-of-linear", out["got"], out["want"],
                    "the projected linear estimate is precisely to_var(calc_proj_physical(linear estimate)) in the estimator's projection order"),
                 eq("one-estimate-per-dataset", out["n"], 1, "one estimate per dataset")]
+
+    def canary(self, W, cfg, inp, out):
+        return [eq("canary", out["got"], out["lin"], "(false) the projected linear estimate is the linear estimate")]
 
 
 class StartPoint(E2Contract):
@@ -194,3 +208,10 @@ class StartPoint(E2Contract):
         else:
             cl.append(eq("start-point-first-row", out["origin"][0][0], np.array([1, 0, 0, 0], dtype=np.float64), "the start gate is trace preserving"))
         return cl
+
+
+class DykstraUnderC10(Dykstra):
+    """the callee contract C10 rests on: calc_proj_physical / calc_proj_physical_with_var are Dykstra's recurrence in either order
+    (the C05 contract, re-checked under C10: a change inside the projection routine breaks 'projected linear estimate == physical projection')"""
+    prop = "C10"
+    name = "calc_proj_physical(_with_var) [callee contract of the constrained estimators]"
